@@ -446,7 +446,7 @@ def run_nf(facts, out):
                         elif f.get('trait') == 'util::parse_number::ParseNumber':
                             n += 1
                             out.add('NF', fn, 'funnel-fn:' + f['name'], loc_of(t['sp']), True, '', {'callee': f['full']})
-    out.anchor('NF', 'numeric conversions in the parsers', n >= 30, '%d' % n)
+    out.anchor('NF', 'numeric conversions in the parsers', n >= 15, '%d' % n)
     # timing beat length: explicit range tests dominate its use
     b = facts.body(TIMING)
     if b is not None:
